@@ -14,6 +14,7 @@ SUBMISSIONS = {
     "syntax": "def add(a, b):\n    return a +\nprint('hello')\n",
     "unused": "def add(a, b):\n    return a + b\nleftover = 5\nfor i in range(2):\n    print(i)\n",
     "parts": "print('pre')\n##### Part 1\nfirst = 1\nprint(first)\n##### Part 2\nsecond = undefined_thing\n",
+    "realmut": "import math\nmath.pi = 3\nprint(math.pi)\n",
     "mathy": "import math\narea = math.pi * 2 ** 2 + 1\nprint(area)\n",
     # attribute assignments on values of builtin types: TIFA records them in the value's method table
     "attrassign": "def add(a, b):\n    return a + b\nname = ' ada '.strip()\nname.upper = 'ADA'\nnums = [1].copy()\nnums.append = 3\nprint('hello')\nprint(add(1, 1))\n",
@@ -150,7 +151,22 @@ def slot_projection():
     from pedal.questions.pool import Pool
     if next_pool_position(R) != 0 or Pool._CURRENT:
         dirty.append("question_pools")
+    if real_module_state() != PRISTINE_MODULES:
+        dirty.append("real_modules")
     return dirty
+
+
+WATCHED_MODULES = ("math", "random", "string", "statistics", "time")
+
+
+def real_module_state():
+    """Names and identities of what the interpreter's own standard modules contain (the objects student code imports)."""
+    import importlib
+    return {name: sorted((k, id(v)) for k, v in vars(importlib.import_module(name)).items() if not k.startswith("__"))
+            for name in WATCHED_MODULES}
+
+
+PRISTINE_MODULES = real_module_state()
 
 
 def run_history(hist):
